@@ -254,6 +254,8 @@ class TB:
         if isinstance(v, SNode):
             if attr in v.facts:
                 return v.facts[attr]
+            if attr == 'result_in_temp' and '_rit' in v.facts:
+                return BoundMethod(v, attr)
             if getattr(self, 'inline', None) and v.cls in self.inline:
                 c = self.class_of_name(v.cls)
                 if c is not None:
@@ -690,6 +692,8 @@ class TB:
             if self.owner is not None and name in self.owner.methods:
                 return self.invoke(Closure(self.owner.methods[name], Env(), self.owner), [recv] + args, kw, text)
             return Opaque('self.%s()' % name)
+        if isinstance(recv, SNode) and name == 'result_in_temp' and not args and '_rit' in recv.facts:
+            return recv.facts['_rit']
         if isinstance(recv, (SNode, BNode)):
             if name in SAME_NODE_METHODS:
                 return recv
@@ -1291,7 +1295,7 @@ def rule_minmax(ctx, rid='C01-MINMAX', floor=10):
 
 
 # =================================================================================================================== C01-INPLACE
-OPERAND_KINDS = ('name/py', 'name/c', 'expr/py', 'expr/c', 'sub/py', 'sub/c', 'attr/py', 'attr/c')
+OPERAND_KINDS = ('name/py', 'name/c', 'expr/py', 'expr/c', 'sub/py', 'sub/c', 'attr/py', 'attr/c', 'cattr/py')
 INDEX_KINDS = ('name/py', 'name/c', 'expr/py', 'expr/c')
 
 
@@ -1306,6 +1310,9 @@ def _operand(label, kind, units):
     py = ty == 'py'
     facts = {'type': _type(py), 'is_name': False, 'is_subscript': False, 'is_attribute': False, 'is_literal': False, 'is_temp': False,
              'is_sequence_constructor': False, 'is_none': False}
+    # ExprNode.result_in_temp(): a Python-object value that is looked up or created (call, Python __getitem__ / attribute lookup) lives in a temp;
+    # a name and a C-level access path (cdef attribute of an extension type, C array element) do not.  `cattr/py` is the C-level attribute that holds an object.
+    facts['_rit'] = py and shape in ('expr', 'sub', 'attr')
     if shape == 'name':
         facts['is_name'] = True
         n = SNode(label, facts, cls='NameNode')
@@ -1330,7 +1337,7 @@ def _operand(label, kind, units):
         n.facts['index'] = _operand(label + '.index', 'name/' + sub_ty, units)
         n.parts = [n.facts['base'], n.facts['index']]
         return n
-    if shape == 'attr':
+    if shape in ('attr', 'cattr'):
         facts['is_attribute'] = True
         n = SNode(label, facts, cls='AttributeNode')
         n.facts['obj'] = _operand(label + '.obj', 'name/' + sub_ty, units)
@@ -1543,13 +1550,16 @@ def inplace_problems(tree, target, units, pos, composite=None):
 
 
 def inplace_finding_class(p, kind, k):
-    """problems that hold on the unmodified tree (genuine defects, reported in FINDING_1 / FINDING_2): -> 'F1' | 'F2' | None"""
+    """problems that hold on the unmodified tree and are recorded as a known finding (K14; FINDING_1 of session s4-G1): -> 'F1' | None.
+    The owner / container of the target, when it is a plain NAME or a C-level attribute path (`self.x` with a cdef attribute), is not copied into a
+    temporary: it is read for the load, and read again for the store after the right-hand side ran.  Python-level lookups (FINDING_2) were repaired in
+    43f76656b and are ordinary violations again."""
     if k == 'reread' and kind == 'name/py' and not p.endswith('index'):
         return 'F1'         # `a[i] += (a := other)`, `o.x += (o := other).x`: the container/owner NAME is read again for the store
     if k == 'order-names':
         return 'F1'
-    if k == 'reload' and kind in ('sub/py', 'attr/py') and p == 'attribute.obj':
-        return 'F2'         # `a[i].x += v`, `o.p.x += v`: the Python-object owner expression is evaluated twice
+    if k == 'reload' and kind == 'cattr/py' and p == 'attribute.obj':
+        return 'F1'         # `self.cattr.x += v`: the C-level attribute path is read again for the store (kept by upstream so that it works without the GIL)
     return None
 
 
@@ -1610,10 +1620,10 @@ def _run_inplace(ix, mod, cls, fn, builder):
 
 
 def rule_inplace(ctx, pending=False, floor=None):
-    rid = 'C01-INPLACE-PENDING' if pending else 'C01-INPLACE'
+    rid = 'C01-INPLACE-NAME' if pending else 'C01-INPLACE'
     r = Rule(rid, '`target OP= rhs` expanded into `target = target OP rhs` (ExpandInplaceOperators): for every kind of target and operand the operands of the target are '
              'evaluated once, in source order, before the right-hand side; only the store follows it; every temporary is bound'
-             + (' [the operand positions of FINDING_1 / FINDING_2]' if pending else ''), floor if floor is not None else (25 if pending else 70))
+             + (' [the owner / container NAME and C-level attribute path of the target: read again for the store, known finding K14]' if pending else ''), floor if floor is not None else (25 if pending else 70))
     ix = ctx.index
     mod = ix.mod('ParseTreeTransforms')
     cls = ix.cls('ParseTreeTransforms', 'ExpandInplaceOperators')
@@ -1665,7 +1675,7 @@ def rule_inplace(ctx, pending=False, floor=None):
         if not pending or relevant:
             r.inst(skey, sample='%s: %d path(s), %d expanded' % (skey, len(res), expanded), nontrivial=expanded > 0)
     if skipped:
-        r.info('obligations that fail on the unmodified tree and are checked by C01-INPLACE-PENDING (pending findings): ' + '; '.join(sorted(skipped)))
+        r.info('obligations that fail on the unmodified tree and are reported by C01-INPLACE-NAME (known finding K14): ' + '; '.join(sorted(skipped)))
     # positive control: a reference helper that treats the index like the base (names are returned as they are)
     k = _MiniClass(ast.parse(PC_INPLACE).body[0])
     b = dict(inplace_shapes())['subscript[name/py][name/py]->py']
